@@ -102,6 +102,8 @@ func runMasks() {
 			runUpd(c, out)
 		case "names":
 			runNames(c, out)
+		case "rnames":
+			runReadNames(c, out)
 		case "proj":
 			runProj(c, out)
 		}
@@ -439,6 +441,30 @@ func occMask(m mini.Mask) *fieldmaskpb.FieldMask {
 
 func occVals(o *traits.Occupancy) nameVals {
 	return nameVals{St: int(o.GetState()), Stcts: int(o.GetStateChangeTime().GetSeconds()), Pc: int(o.GetPeopleCount())}
+}
+
+// reads over the same schema (C06): the update mask of the case doubles as a read mask
+func runReadNames(c maskCase, out *hx.Out) {
+	old := &traits.Occupancy{State: traits.Occupancy_OCCUPIED, StateChangeTime: &timestamppb.Timestamp{Seconds: 7}, PeopleCount: 3}
+	base := namesObs{K: "rnames", M: c.M, W: c.W, Old: occVals(old), Post: occVals(old)}
+	{
+		o := base
+		o.Via = "filterclone"
+		o.Panic = hx.Catch(func() {
+			res := masks.NewResponseFilter(masks.WithFieldMask(occMask(c.M))).FilterClone(old)
+			o.Post = occVals(res.(*traits.Occupancy))
+		})
+		out.Write(o)
+	}
+	{
+		o := base
+		o.Via = "value"
+		o.Panic = hx.Catch(func() {
+			v := resource.NewValue(resource.WithInitialValue(old))
+			o.Post = occVals(v.Get(resource.WithReadMask(occMask(c.M))).(*traits.Occupancy))
+		})
+		out.Write(o)
+	}
 }
 
 func runNames(c maskCase, out *hx.Out) {
